@@ -11,8 +11,11 @@ respect to it.  Written from the words of the property, not from the code:
 The sequential object is a finite map kept as a list **sorted by key** (canonical form) plus the current time.  Every
 operation of the API is one atomic transition, except the two iterating calls, whose precise (weaker) specification is:
 
-* `Range f` – a sequence of atomic observations: each reported pair `(k, v)` was the entry of `k` at some instant inside
-  the call, in the order reported; nothing is promised about which keys are reported when the map changes meanwhile;
+* `Range f` – a sequence of atomic observations: each reported pair `(k, v)` was, at some instant inside the call and in
+  the order reported, the entry of `k` in the map the `Range` works on.  That map is the shared map — except that
+  `LoadAndDeleteAll` does not empty the shared map but *detaches* it (the caller receives the detached map and the shared
+  map starts again empty): a `Range` that is under way keeps reporting from the map it started on.  Nothing is promised
+  about which keys are reported when the map changes meanwhile;
 * `CheckExpirations now` – a sequence of atomic removals, each of an entry whose value is expired at `now` at the instant
   of removal; entries that are not expired are never touched.
 -/
@@ -64,7 +67,7 @@ inductive Op
   | loadAndDeleteAll
   | copyData
   | length
-  | range (stop : Option Nat) (acc : Entries)          -- Range: visits so far (stop = the callback returns false at the n-th visit)
+  | range (stop : Option Nat) (acc : Entries) (g : Option Nat)   -- Range: visits so far; g = which map it works on (none: not begun)
   | range2                                            -- Range2 (the read lock is held throughout)
   | storeWithFunc (k : Nat) (v : Val)
   | loadWithFunc (k : Nat) (d : Nat)
@@ -81,9 +84,14 @@ inductive Op
 structure State where
   m : Entries
   now : Nat
+  gen : Nat := 0                        -- how many times LoadAndDeleteAll has detached the map
+  detached : List (Nat × Entries) := [] -- the detached maps (they are never modified through the shared object again)
   deriving DecidableEq, Repr
 
-def init : State := ⟨[], 0⟩
+def init : State := { m := [], now := 0 }
+
+/-- the map a `Range` that began in generation `g` works on -/
+def mapOf (s : State) (g : Nat) : Entries := if g = s.gen then s.m else (s.detached.lookup g).getD []
 
 /-! ### the sequential map (sorted by key) -/
 
@@ -129,12 +137,13 @@ def fires (op : Op) (s : State) : List (State × Outcome) :=
   | .replace k v => [({ s with m := sput k v s.m }, .done (.opt (sget k s.m)))]
   | .delete k => [({ s with m := sdel k s.m }, .done .unit)]
   | .loadAndDelete k => [({ s with m := sdel k s.m }, .done (.opt (sget k s.m)))]
-  | .loadAndDeleteAll => [({ s with m := [] }, .done (.dump s.m))]
+  | .loadAndDeleteAll => [({ s with m := [], gen := s.gen + 1, detached := (s.gen, s.m) :: s.detached }, .done (.dump s.m))]
   | .copyData => [(s, .done (.dump s.m))]
   | .length => [(s, .done (.num s.m.length))]
-  | .range stop acc =>
-    -- finish at any time; or observe any entry currently in the map
-    (s, .done (.visits acc)) :: s.m.map (fun e => (s, .more (.range stop (acc ++ [e]))))
+  | .range stop acc g =>
+    -- finish at any time; or observe any entry currently in the map the Range works on (it begins with its first observation)
+    let g' := g.getD s.gen
+    (s, .done (.visits acc)) :: (mapOf s g').map (fun e => (s, .more (.range stop (acc ++ [e]) (some g'))))
   | .range2 => [(s, .done (.dump s.m))]
   | .storeWithFunc k v => [({ s with m := sput k v s.m }, .done .unit)]
   | .loadWithFunc k d => [(s, .done (.optCb ((sget k s.m).map (·.add d)) (sget k s.m)))]
@@ -210,7 +219,7 @@ def nextRet (t : Nat) : List Ev → Option Res
 /-- can the pending operation still end with result `r`?  (search pruning only; `true` is always safe) -/
 def compat (op : Op) (r : Res) : Bool :=
   match op, r with
-  | .range _ acc, .visits l => acc.length ≤ l.length && l.take acc.length == acc
+  | .range _ acc _, .visits l => acc.length ≤ l.length && l.take acc.length == acc
   | _, _ => true
 
 def search : Nat → State → PTab → List Ev → Bool
